@@ -94,17 +94,17 @@ theorem c09_gen_factory (T : Table) (C : CtorTable) (env : Env) (enabled flag : 
 
 /-- `add()` with a type argument as translated (factory call with the flag and the keywords handed through,
     C10's placement block, final gate on the parent) = the hand model `addByType` -/
-theorem c09_gen_add (T : Table) (C : CtorTable) (env : Env) (strOk : Obj → Bool) (enabled flag : Bool) (parent : Obj)
+theorem c09_gen_add (sh : PlaceShape) (T : Table) (C : CtorTable) (env : Env) (strOk : Obj → Bool) (enabled flag : Bool) (parent : Obj)
     (t : TypeArg) (kw : Kwargs) (hint : Option Nat) (force : Bool) (oid : Nat)
     (hcell : env.cellCls = Gen.Factory.setupClass) (hsetup : ∀ o, (env.setupCell o).cls = o.cls) :
-    Gen.Factory.addByType T C env strOk enabled flag parent t kw hint force oid =
-      addByType T C env strOk enabled flag parent t kw hint force oid := by
+    Gen.Factory.addByType sh T C env strOk enabled flag parent t kw hint force oid =
+      addByType sh T C env strOk enabled flag parent t kw hint force oid := by
   unfold Gen.Factory.addByType addByType
   rw [c09_gen_factory T C env enabled flag t kw oid hcell hsetup]
   cases factory T C env enabled flag t kw oid with
   | error e => rfl
   | ok child =>
-    simp only [Py.place, Add.add, addWith, addCore, Gate.on, Bool.false_and, Bool.false_eq_true, ↓reduceIte]
+    simp only [Py.place, addInst, addCoreX, Gate.on, Bool.false_and, Bool.false_eq_true, ↓reduceIte]
     generalize select true (targets (T.getMembers parent.cls) child.cls) hint = sel
     match sel with
     | .error e => rfl
@@ -113,7 +113,7 @@ theorem c09_gen_add (T : Table) (C : CtorTable) (env : Env) (strOk : Obj → Boo
       cases enabled <;> cases flag <;> simp <;> cases env.valid parent <;> rfl
     | .ok (some m) =>
       simp only
-      generalize place (strOk child) parent child m force = pl
+      generalize placeX sh.dup sh.warn sh.bk (strOk child) parent child m force = pl
       match pl with
       | .error e => rfl
       | .ok (p', w) =>
